@@ -83,6 +83,7 @@ FIXED = [
  ('C13', 'print in the debugger reports', 'C13.only-evaluation-errors-escape:qbee/expr.py:Lvalue.type:raise CompileError', 'debugger: print x.y + 1 -> CompileError'),
  ('C13', 'print in the debugger reports', 'C13.only-evaluation-errors-escape:qbee/expr.py:BinaryOp._eval_numeric.limit:raise OverflowError', 'debugger: print 32767% + 1% -> OverflowError'),
  ('C13', 'print in the debugger reports', 'C13.partial-arithmetic-caught:qbee/expr.py:BinaryOp._eval_numeric:partial-arithmetic', 'debugger: print 1/0 -> ZeroDivisionError'),
+ ('C02', 'rounds before the range test again', 'C02.conv-fold-range-guard:qbee/qvm_codegen.py:QvmCode.optimize:conv-fold:tested-value-is-pushed', 'x& = 2147483647.6# at -O2 -> struct.error in bytes(code): a regression introduced by my own earlier fix a4141a2 (rounding moved after the can_hold test), found by the tested-value-is-pushed rule'),
  ('C14', 'DEFtype letter ranges ignore the case', 'C14.deftype-letter-range-ignores-case:qbee/grammar.py:parse_deftype:a-C', 'DEFINT a-C : b = 2.6 : PRINT b printed 2.6 (empty range); DEFINT A-c made every letter from a to z an INTEGER'),
  ('C14', 'DEFtype letter ranges ignore the case', 'C14.deftype-letter-range-ignores-case:qbee/grammar.py:parse_deftype:A-c', 'DEFINT A-c : z = 2.6 : PRINT z printed 3'),
  ('C11', 'end statement starts after the child that ends last', 'C11.block-records-span-first-to-last-child-instruction:qvm/debug_info.py:DebugInfo.finalize:a child that encloses a later-starting, earlier-ending one (single-line IF with a statement inside)', 'WHILE x < 3 / ... / IF x = 2 THEN PRINT "b" / WEND compiled with -g: the WEND record started at the end of the inner PRINT (84) inside the IF record 64-89, so the tail of the IF was attributed to the WEND line (overlapping, non-nested ranges)'),
